@@ -28,6 +28,8 @@ type SchedConfig struct {
 	Sandbox      string   `json:"sandbox,omitempty"`
 	FaultOpIndex int      `json:"fault_op_index,omitempty"`
 	FaultErrno   string   `json:"fault_errno,omitempty"`
+	StallOp      int      `json:"stall_op,omitempty"`  // fault: the machine stalls before the StallOp-th file operation ...
+	StallSec     int      `json:"stall_sec,omitempty"` // ... for this many simulated seconds (bubble clock)
 	DenyCreate   bool     `json:"deny_create,omitempty"` // fault: no new directory entries (EACCES), existing files stay writable
 	Out          string   `json:"out,omitempty"`
 	// ProcEnv: variables of the PROCESS the world runs in (garbage-collector
